@@ -85,7 +85,7 @@ theorem sI_W3a_step (f : Sem) (j : Job) (cl : Cluster) (s s' : Sys) (st : Step) 
       cases hs
       have hfi := (sB_assignOne j cl s.ctl c a prep hr).2.1
       have hout := (i2a_assignOne_frames j cl s.ctl c a prep hr).2.2.2.2.2.1
-      have hpend := (i2b_applyCmds_frame j cl (actCmds a prep) s.env).2.2.1
+      have hpend := (i2b_applyCmds_frame j cl (actCmds j a prep) s.env).2.2.1
       refine sI_W3a_mono h hfi hout (sI_applyCmds_mono j cl _ s.env).2 ?_
       intro ev hev
       simpa [Sys.allEv, hpend] using hev
@@ -172,6 +172,7 @@ theorem sI_W3a_step (f : Sem) (j : Job) (cl : Cluster) (s s' : Sys) (st : Step) 
   | env es =>
     simp only [step] at hs
     split at hs; · cases hs
+    rw [envStepP_eq f j s.env es hA.h1.no_trim] at hs
     cases he : envStep f j s.env es with
     | none => simp [he] at hs
     | some e =>
@@ -369,6 +370,7 @@ theorem sI_W3b_step (f : Sem) (j : Job) (cl : Cluster) (s s' : Sys) (st : Step) 
   | env es =>
     simp only [step] at hs
     split at hs; · cases hs
+    rw [envStepP_eq f j s.env es hA.h1.no_trim] at hs
     cases he : envStep f j s.env es with
     | none => simp [he] at hs
     | some e =>
